@@ -477,6 +477,26 @@ def r2_begin_is_loop_start(facts):
     the end of the load (buildTimeLine), rewind(), and the global jump of processEvents.  An unconditional `= true` in rewind()
     gives marker songs one callback too many; a missing arming gives marker-less songs none."""
     out = []
+    # the member that records "the song has a valid loopStart marker": assigned in buildSmfTrackData from the local flag that the
+    # ST_LOOPSTART branch of the validation sets (m_loopStartTime cannot serve: a song with a loopEnd marker only gets start time 0)
+    bt = facts.fn(SEQ + '::buildSmfTrackData')
+    E = facts.enums
+    flag_locals = set()
+    for b, j, st in bt.cfg.stmts():
+        ap = assign_parts(st['s'])
+        if ap and strip(ap[0]).get('k') == 'DeclRefExpr' and const_of(ap[1]) == 1:
+            gf = guard_facts(bt, b, st)
+            if any(f[0] == 'cmp' and f[1] == '==' and const_of(f[3]) == E.get('ST_LOOPSTART') and mentions(f[2], member_named('subtype')) for f in gf):
+                flag_locals.add(strip(ap[0])['id'])
+    marker_members = set()
+    for b, j, st in bt.cfg.stmts():
+        ap = assign_parts(st['s'])
+        if ap and strip(ap[0]).get('k') == 'MemberExpr' and strip(strip(ap[0]).get('b')).get('k') == 'CXXThisExpr' and \
+                any(isinstance(y, dict) and y.get('id') in flag_locals for y in walk(ap[1])):
+            marker_members.add(short(strip(ap[0])['n']))
+    if not marker_members:
+        out.append(Obl('C09.R2', bt.name, 'the sequencer records whether the song has a valid loopStart marker', bt.loc, 'finding',
+                       why='no member is assigned from the flag that the loopStart validation sets: the places that arm the loop-start callback cannot tell a song without a loopStart marker (the loop start time is 0 also for a song with a loopEnd marker only)'))
     def arming(fn):
         """(loc, conditional?) of the stores to m_loop.caughtStart in fn; conditional = the value or a guard compares m_loopStartTime with 0"""
         res = []
@@ -490,8 +510,8 @@ def r2_begin_is_loop_start(facts):
                     continue
                 if const_of(ap[1]) == 0:
                     continue            # consumption / reset
-                by_value = any(y.get('k') == 'MemberExpr' and short(y['n']) == 'm_loopStartTime' for y in walk(ap[1]))
-                by_guard = any(f[0] == 'cmp' and f[1] in ('<', '<=') and mentions(f[2], member_named('m_loopStartTime')) for f in guard_facts(fn, b, st))
+                by_value = any(y.get('k') == 'MemberExpr' and short(y['n']) in marker_members for y in walk(ap[1]))
+                by_guard = any(f[0] == 'truth' and not f[2] and any(isinstance(y, dict) and y.get('k') == 'MemberExpr' and short(y['n']) in marker_members for y in walk(f[1])) for f in guard_facts(fn, b, st))
                 res.append((st['loc'], by_value or by_guard, b, j))
         return res
     for fname, what in (('buildTimeLine', 'end of load'), ('rewind', 'rewind'), ('processEvents', 'global loop jump')):
@@ -505,7 +525,7 @@ def r2_begin_is_loop_start(facts):
             ok = all(any(fn.cfg.reaches(jb, b) or (jb == b and jj < j) for jb, jj in jumps) for _, _, b, j in ar)
         loc = ar[0][0] if ar else fn.loc
         out.append(Obl('C09.R2', fn.name, 'loop-start flag armed at the %s exactly when the song has no loopStart marker' % what, loc, 'discharged' if ok else 'finding',
-                       why='caughtStart := (m_loopStartTime < 0)' if ok else
+                       why='caughtStart := !<has loopStart marker>' if ok else
                        ('no arming of m_loop.caughtStart: a song without a loopStart marker gets no loop-start callback for the pass that begins here' if not ar else
                         'm_loop.caughtStart is armed unconditionally: a song whose loopStart marker comes later gets an extra loop-start callback at the song begin')))
     # the callback of the consumed flag is invoked only while looping is enabled (as the markers are honoured only then)
